@@ -253,7 +253,7 @@ class Interp:
         if isinstance(st, (ast.Import, ast.ImportFrom)):
             self.do_import(st, env, m)
         elif isinstance(st, ast.FunctionDef):
-            env.vars[st.name] = Closure(st, env, m)
+            env.vars[st.name] = self.decorate(Closure(st, env, m), st)
         elif isinstance(st, ast.ClassDef):
             env.vars[st.name] = self.make_class(st, env, m)
         elif isinstance(st, ast.Try):
@@ -480,6 +480,20 @@ class Interp:
         q = clo.qualname
         if q in self.summaries:
             return self.summaries[q](self, list(args), dict(kwargs))
+        if getattr(clo, 'unsupported_decorator', None):
+            raise Unsupported(f'function {q} is wrapped by decorator {clo.unsupported_decorator}')
+        if getattr(clo, 'memo', None) is not None and not getattr(self, '_in_memo', False):
+            key = self.memo_key(args, kwargs)
+            for k_, v_ in clo.memo.items():
+                if k_ == key:
+                    return v_
+            self._in_memo = True
+            try:
+                v_ = self.call_closure(clo, args, kwargs)
+            finally:
+                self._in_memo = False
+            clo.memo[key] = v_
+            return v_
         self.prog.note_executed(clo)
         node = clo.node
         env = Env(clo.env)
@@ -503,6 +517,21 @@ class Interp:
             return r.v
         finally:
             self.depth -= 1
+
+    def memo_key(self, args, kwargs):
+        """lru_cache key: hashable python values; symbolic scalars are keyed by their term (equal terms hit the cache, as equal floats would;
+        different terms that may be equal in value are treated as a miss on this path - the harness chooses identical arguments to exercise hits)"""
+        def k(v):
+            if is_sym(v):
+                return ('sym', v.sexpr())
+            if isinstance(v, (int, str, bool, Fraction, type(None))):
+                return v
+            if isinstance(v, Cx):
+                return ('cx', k(v.re), k(v.im))
+            if isinstance(v, (tuple,)):
+                return tuple(k(x) for x in v)
+            raise PyExc('TypeError', 'unhashable argument of a cached function')
+        return (tuple(k(a) for a in args), tuple(sorted((n, k(v)) for n, v in kwargs.items())))
 
     def bind_args(self, a, clo, args, kwargs, env):
         params = [p.arg for p in a.posonlyargs + a.args]
@@ -947,7 +976,19 @@ class Interp:
         raise _Continue()
 
     def ex_FunctionDef(self, st, env):
-        env.vars[st.name] = Closure(st, env, self.cur_module(env))
+        env.vars[st.name] = self.decorate(Closure(st, env, self.cur_module(env)), st)
+
+    def decorate(self, clo, st):
+        """decorators of plain functions: functools.lru_cache / cache are modelled (memoisation on the argument values: the SAME result object is
+        returned again - which matters when callers modify the result in place); any other decorator puts the function out of reach"""
+        for d in st.decorator_list:
+            txt = ast.unparse(d)
+            base = txt.split('(')[0]
+            if base in ('functools.lru_cache', 'lru_cache', 'functools.cache', 'cache'):
+                clo.memo = {}
+            else:
+                clo.unsupported_decorator = txt
+        return clo
 
     def ex_With(self, st, env):
         for item in st.items:
